@@ -34,22 +34,24 @@ PROPS["C20"] = {
     ],
     "groups": [
         {"pkg": "cmd/carbon-relay-ng", "hdir": "cmd", "specs": [
-            spec("C20/expand/identity<=6", "VerifC20ExpandIdentity", {"maxlen": "xxxxxx"}),
+            spec("C20/expand/identity<=5", "VerifC20ExpandIdentity", {"maxlen": "xxxxx"}),
+            spec("C20/expand/identity<=6", "VerifC20ExpandIdentity", {"maxlen": "xxxxxx"}, tier="thorough"),
             spec("C20/expand/identity<=8", "VerifC20ExpandIdentity", {"maxlen": "xxxxxxxx"}, tier="thorough"),
             spec("C20/expand/substitution", "VerifC20ExpandSubst"),
             spec("C20/expand/examples", "VerifC20ExpandExamples"),
         ]},
         {"pkg": "imperatives", "hdir": "imperatives", "overlays": _C20_OVERLAYS, "specs": [
-            spec("C20/dest/options<=2", "VerifC20DestOptions", {"maxopts": "xx", "vlens": "1,3"}),
+            spec("C20/dest/options<=1", "VerifC20DestOptions", {"maxopts": "x", "vlens": "1,3"}),
+            spec("C20/dest/options<=2", "VerifC20DestOptions", {"maxopts": "xx", "vlens": "1,3"}, tier="thorough"),
             spec("C20/dest/options<=3", "VerifC20DestOptions", {"maxopts": "xxx", "vlens": "2"}, tier="thorough"),
             spec("C20/dest/options<=2/digits=1,2,3,7", "VerifC20DestOptions", {"maxopts": "xx", "vlens": "1,2,3,7"}, tier="thorough"),
-            spec("C20/dest/all-options", "VerifC20DestAll"),
+            spec("C20/dest/all-options", "VerifC20DestAll", tier="thorough"),
             spec("C20/dest/all-options-full", "VerifC20DestAll", {"full": "1"}, tier="thorough"),
             spec("C20/dest/no-matcher", "VerifC20DestNoMatcher", {"vlens": "1,3"}),
             spec("C20/dest/doc-examples", "VerifC20DocExamples"),
         ]},
         {"pkg": "imperatives", "hdir": "imperatives", "overlays": _C20_OVERLAYS, "specs": [
-            spec("C20/dest/addRoute", "VerifC20AddRoute", {"vlens": "2"}),
+            spec("C20/dest/addRoute", "VerifC20AddRoute", {"vlens": "2"}, tier="thorough"),
             spec("C20/dest/addRoute-full", "VerifC20AddRoute", {"vlens": "1,3", "full": "1"}, tier="thorough"),
         ]},
         {"pkg": "cfg", "hdir": "cfg", "overlays": _C20_OVERLAYS, "specs": [
